@@ -49,6 +49,12 @@ def judge_tournament(case, rec, source, exhaustive_tag):
     minimize = case["minimize"]
     problem = SingleObjectiveProblem(lambda p: p[1][0], minimize=minimize)
     inds = mk_inds([[v] for v in case["values"]])
+    if case.get("decoy"):
+        # the same individuals were evaluated earlier under another problem (opposite direction)
+        # that is still alive: selection must rank by the problem it is given
+        decoy = SingleObjectiveProblem(lambda p: p[1][0], minimize=not minimize)
+        SequentialEvaluator().evaluate(decoy, inds)
+        judge_tournament.keepalive = decoy
     step = TournamentSelection(case["tsize"], with_replacement=case["replacement"])
     out = list(step.apply(problem, SequentialEvaluator(), TableRep(), source, list(inds), case["target"], 1))
     return inds, out
@@ -93,13 +99,14 @@ class TournamentRecorded(Facet):
     def strategy(self, tier):
         return st.integers(1, 8).flatmap(
             lambda n: st.builds(
-                lambda values, ts, repl, tgt, minimize, seed: {"values": values, "tsize": ts, "replacement": repl, "target": tgt, "minimize": minimize, "seed": seed},
+                lambda values, ts, repl, tgt, minimize, seed, decoy: {"values": values, "tsize": ts, "replacement": repl, "target": tgt, "minimize": minimize, "seed": seed, "decoy": decoy},
                 st.lists(st.integers(-3, 3), min_size=n, max_size=n),
                 st.integers(1, n + 2),
                 st.booleans(),
                 st.integers(1, 2 * n),
                 st.booleans(),
                 st.integers(0, 2**31),
+                st.booleans(),
             ),
         )
 
@@ -128,11 +135,12 @@ class TournamentAllDraws(Facet):
     def strategy(self, tier):
         return st.integers(1, 4).flatmap(
             lambda n: st.builds(
-                lambda values, ts, repl, tgt, minimize: {"values": values, "tsize": ts, "replacement": repl, "target": tgt, "minimize": minimize},
+                lambda values, ts, repl, tgt, minimize, decoy: {"values": values, "tsize": ts, "replacement": repl, "target": tgt, "minimize": minimize, "decoy": decoy},
                 st.lists(st.integers(0, 2), min_size=n, max_size=n),
                 st.integers(1, 3),
                 st.booleans(),
                 st.integers(1, 3),
+                st.booleans(),
                 st.booleans(),
             ),
         )
